@@ -357,4 +357,46 @@ func c15R4(p *engine.Prog, r *engine.Report) {
 		r.Check(okCost, "C15-R4", "applyTxOnState|receipt.GasCost = GetGasCost(state, receipt.GasUsed)", p.Pos(f.Pos()), "cost of exactly the reported gas", "gas cost is not computed from the reported (clamped) gas")
 	}
 	r.Floor("C15-R4", 8, "2 call sites + limit + 2x2 clamp + cost")
+	// ---------------- R6: buffered balances — reads go through the buffer (shared with C04-R7) and a
+	// read-modify-write of a balance is not interleaved with another write of the buffer
+	c04R7rule(p, r, "C15-R6")
+	{
+		n := 0
+		for _, pkg := range []string{"vm/env", "vm/wasm"} {
+			for _, f := range funcsOfPkg(p, pkg) {
+				if f.Blocks == nil || isTestish(p.Pos(f.Pos())) {
+					continue
+				}
+				var sets []ssa.CallInstruction
+				for _, c := range engine.Calls(f) {
+					if cal := c.Common().StaticCallee(); cal != nil && cal.Name() == "setBalance" {
+						sets = append(sets, c)
+					}
+				}
+				for _, sc := range sets {
+					args := sc.Common().Args
+					// a fresh environment being initialised is not the buffer of this transaction step
+					if a, isA := engine.Origin(args[0]).(*ssa.Alloc); isA && a.Parent() == f {
+						continue
+					}
+					for v := range engine.BackSlice(args[len(args)-1], engine.DefaultSlice) {
+						gc, ok := v.(*ssa.Call)
+						if !ok || gc.Call.StaticCallee() == nil || gc.Call.StaticCallee().Name() != "getBalance" {
+							continue
+						}
+						n++
+						var between []string
+						for _, other := range sets {
+							if other != sc && reachesInstr(gc, other) && reachesInstr(other, sc) {
+								between = append(between, p.InstrPos(other))
+							}
+						}
+						r.Check(len(between) == 0, "C15-R6", uniq(r, engine.RelName(f)+"|balance written from a read that no other write follows"), p.InstrPos(sc), "getBalance → setBalance with no other setBalance in between", "the balance written here was read before another buffer write at "+strings.Join(between, ", ")+": when both concern the same address (a contract paying itself) the second write overwrites the first with a stale value — coins appear from nothing")
+					}
+				}
+			}
+		}
+		_ = n
+	}
+	r.Floor("C15-R6", 6, "2 cache-through reads + 4 read-modify-write helpers")
 }
